@@ -137,6 +137,14 @@ def enumerate_cases(tier: str):
         for length in range(1, depth + 1):
             for combo in itertools.product(ENUM_ALPHABET, repeat=length):
                 yield {"version": version, "registry": {}, "ops": [["rx", line] for line in combo], "mode": "steps"}
+    # every internal / stream type with the payloads 0, 1 and none (from the gateway, from a known node), then a new node appears:
+    # no message is a hidden switch for how the registry is kept
+    for version in ("1.4", "2.2") if tier == "quick" else VERSIONS:
+        for mtype in [t for t in range(0, 35) if t not in (2, 3, 4)]:
+            for text in ("0", "1", ""):
+                lines = ["4;255;0;0;17;2.0\n", f"0;255;3;0;{mtype};{text}\n", f"4;255;3;1;{mtype};{text}\n", f"4;255;4;0;{mtype % 6};{text}\n",
+                         "20;255;0;0;17;2.1.0\n", "20;1;0;0;6;c\n", "20;1;1;0;0;5\n", "20;255;3;0;0;77\n", "4;255;0;0;18;2.2.0\n", "4;2;0;0;3;r\n"]
+                yield {"version": version, "registry": {}, "ops": [["rx", line] for line in lines], "mode": "steps", "listen_mode": "persistent" if mtype % 2 else "fresh"}
     # the whole id space: every node id presents itself, reports and presents a child (ids 0 and 255 are ids like any other)
     for version in ("1.4", "2.2") if tier == "quick" else VERSIONS:
         for start in range(0, 256, 16):
